@@ -11,17 +11,18 @@ RULE = ("worlds of every party / EVSE / battery class with 1-3 injected schedule
         "to_json()->str, to_json(StringIO) or to_json(file) + from_json + update_scheduler; twin run without crashes is "
         "the reference; non-trivial = crash with >=1 connected partially charged EV and >=1 pending event; distinct = "
         "history signature incl. (crash period, resume mode)")
-PROBES = ["resume:rerun", "resume:json_str", "resume:json_buf", "resume:json_file", "crash_last_period",
+PROBES = ["resume:rerun", "resume:json_str", "resume:json_buf", "resume:json_file", "resume:json_io_fault", "resume:json_handle", "resume:json_twice", "crash_last_period",
           "crash_timer_pending", "double_crash_same_period", "crash_before_first_event", "crash_after_inner",
           "pending_plugin_at_crash", "pending_recompute_at_crash", "schedule_history_on", "noisy_battery",
           "rampdown_estimator_json_resume", "uninterrupted_crash_after_inner", "mutate_then_crash", "two_sessions_share_an_id"]
-FAULT_DIMENSION = "scheduler crash at arbitrary calls (optionally after scribbling over everything it was handed) x 4 resume modes (only JSON survives in 3 of them); noise tape continues across restarts"
+FAULT_DIMENSION = "scheduler crash at arbitrary calls (optionally after scribbling over everything it was handed) x 8 resume modes (only JSON survives in 7 of them; one of them with a disk that fills up during the first two save attempts, a missing directory, an overwrite of a longer file and a load from an open handle; one through the caller's open handles; one checkpoint of a checkpoint); noise tape continues across restarts"
 ASSUMPTIONS = ["signals is None or JSON-able (a tariff object is documented as not serialised)",
                "start is a naive datetime (tzinfo is not part of the serial form)",
                "estimator state lives in the scheduler, which is not serialised: with SimpleRampdown only crashes before the algorithm ran are injected",
-               "no torn/partial JSON files are modelled"]
+               "a save that FAILED (short write + ENOSPC) is survived and repeated; loading a torn file is not modelled (the property promises nothing about it)"]
 
-PROFILE = world.profile(interrupts=0.15, aware_start=0.2, faults={"crash": 1.8, "mutate_crash": 0.3}, resume_modes=["rerun", "json_str", "json_buf", "json_file", "json_str", "json_buf", "json_file", "json_pathlike", "rerun"],
+PROFILE = world.profile(interrupts=0.15, aware_start=0.2, faults={"crash": 1.8, "mutate_crash": 0.3}, resume_modes=["rerun", "json_str", "json_buf", "json_file", "json_str", "json_buf", "json_file", "json_pathlike", "rerun",
+                                                                                                              "json_io_fault", "json_io_fault", "json_handle", "json_twice"],
                         signals={"none": 2, "dict": 1}, estimator={"none": 3, "stub": 1, "rampdown": 2}, uninterrupted=0.4, extra_recompute=0.6,
                         custom_events=0.15,
                         party={"scripted": 4, "uncontrolled": 2, "greedy": 3, "rr": 1}, noise=0.35)
@@ -145,6 +146,10 @@ def check(sc):
     if tr.terminal == "json":
         out.add("C09/json_roundtrip_failed", "%s: %s" % (type(tr.exc).__name__, str(tr.exc)[:200]))
         return out
+    if getattr(tr.ctx, "io_fault_changed_state", False):
+        out.add("C09/failed_save_changed_state", "a to_json() that failed (disk full / missing directory) left the simulator in another state")
+    if getattr(tr.ctx, "handle_closed", False):
+        out.add("C09/caller_handle_closed", "to_json(open handle) closed the caller's handle")
     ok = completion(tr, out, "C09", required=True)
     for r in tr.resumes:
         if r["mode"] != "rerun":
